@@ -5,13 +5,15 @@ ENGINES = {
         about="Gallina model of ugm.Manager / UserTracker / GroupTracker / QueueTracker, enforcement and conservation theorems, reload exactness refuted + partial, step-wise correspondence and oracles through vm_compute",
         n=dict(quick=150, thorough=1500), shards=dict(quick=1, thorough=4),
         kinds={
-            1: dict(cls="corr", props=["C05"], what="ugm model and implementation disagree on a Manager call"),
-            7: dict(cls="corr", props=["C05"], what="ugm model: UpdateConfig result depends on the map iteration order"),
+            1: dict(cls="corr", props=["C05"], what="ugm model and implementation disagree on a Manager call (state after the call or returned value), for every map iteration order"),
             2: dict(cls="oracle", props=["C05"], what="a scheduler-decided increase pushed user/group usage over a configured limit"),
             3: dict(cls="oracle", props=["C05"], what="a scheduler-decided increase admitted an application beyond max applications"),
             4: dict(cls="oracle", props=["C05"], what="tracked usage differs from the sum of live allocations"),
             5: dict(cls="oracle", props=["C05"], what="limit in force differs from the latest configuration"),
             6: dict(cls="oracle", props=["C05"], what="UpdateConfig panicked"),
+            14: dict(cls="known", props=["C05"], finding="C05-group-reset-usage", what="group usage after a dropped group limit"),
+            17: dict(cls="known", props=["C05"], finding="C05-reload-order", what="reload outcome depends on map iteration order"),
+            20: dict(cls="known", props=["C05"], finding="C05-lost-named-limit", what="named limit lost below a dropped ancestor limit"),
         },
     ),
 }
